@@ -545,6 +545,41 @@ func c09EndToEnd(c *Ctx) {
 			}
 			c.Extra(fmt.Sprintf("e2e_%d_body_bytes", i), len(m.Body))
 			c.Count(fmt.Sprint("e2e/", n), true, fmt.Sprintf("e2e:accessories<=%d", bucketLen2(n)), fmt.Sprintf("e2e:chunks>=%d", len(m.Body)/2048))
+			// a PUT whose body spans several session frames (a scene: many writes in one request), then read back
+			type wref struct {
+				aid uint64
+				ch  *characteristic.Characteristic
+			}
+			var targets []wref
+			for _, a := range all {
+				for _, sv := range a.GetServices() {
+					for _, ch := range sv.GetCharacteristics() {
+						if ch.Format == characteristic.FormatBool && ch.IsWritable() && ch.IsReadable() {
+							targets = append(targets, wref{a.ID, ch})
+						}
+					}
+				}
+			}
+			for _, want := range []bool{true, false} {
+				var ents []string
+				for _, t := range targets {
+					ents = append(ents, fmt.Sprintf(`{"aid":%d,"iid":%d,"value":%v}`, t.aid, t.ch.ID, want))
+				}
+				body := `{"characteristics":[` + strings.Join(ents, ",") + `]}`
+				m, err := cl.Do("PUT", "/characteristics", "application/hap+json", []byte(body))
+				if err != nil || m.Status != 204 {
+					c.Violate("PUT of valid values spanning several session frames is not accepted", id, fmt.Sprintf("%d writes, body %d bytes", len(targets), len(body)), "204", fmt.Sprint(err, m))
+					return
+				}
+				for _, t := range targets {
+					if t.ch.Value != want {
+						c.Violate("value written by a verified controller is not what the application reads", id,
+							fmt.Sprintf("PUT of %d writes (%d bytes): characteristic %d.%d", len(targets), len(body), t.aid, t.ch.ID), fmt.Sprint(want), fmt.Sprint(t.ch.Value))
+						break
+					}
+				}
+				c.Count(fmt.Sprint("e2e/put/", len(body), want), true, fmt.Sprintf("e2e:put-bytes<=%d", bucketLen2(len(body))))
+			}
 			// a GET for many ids over the encrypted session
 			var ids []string
 			for _, a := range all[:min(len(all), 30)] {
